@@ -2193,6 +2193,8 @@ def make_builtins(E):
                     return True
                 return False
             raise Unsupported('isinstance(_, extern %s)' % t.name)
+        if isinstance(t, SObj) or t is None or isinstance(t, (int, str, bytes, SInt, SBytes, SStr, EnumMember, list, dict)):
+            E.throw('TypeError', 'isinstance() arg 2 must be a type, a tuple of types, or a union')
         raise Unsupported('isinstance with %r' % (t,))
     reg('isinstance', _isinstance)
 
